@@ -125,6 +125,14 @@ fn exec_unit(input: &str, out: &mut CaseOut) {
     };
     out.nontrivial = true;
     out.stat(&format!("unit:ids={}", u.ids.len()));
+    // first, on this thread: texts whose unit is refused (no such unit; the unit's own symbol followed by letters that make
+    // it unknown; a unit cut short by the end of the input inside a multi-byte character) - a refusal must leave nothing
+    // behind for the decodes that follow
+    for bad in ["21.5zzq".to_string(), format!("3{}zzq", u.symbol()), "[1kW, 2zzq]".to_string(), "7\u{00e9}\u{00e9}".to_string()] {
+        if libhaystack::encoding::zinc::decode::from_str(&bad).is_ok() && get_unit(bad.trim_start_matches(|c: char| c.is_ascii_digit() || c == '.')).is_none() && !bad.starts_with('[') {
+            out.fail("unknown_unit_accepted", format!("{bad:?} decodes although its unit is no identifier of the database"));
+        }
+    }
     if u.symbol().chars().any(|c| !c.is_ascii()) {
         out.stat("unit:non_ascii_symbol");
     }
